@@ -902,7 +902,7 @@ def gen_ecdsa(r, tier, f, focus):
                   "oracle": [{"relation": "same", "order": list(u2f)}]
                   if r.random() < f["oracle"] else []})
       length += 3
-  fault_left = 1 if r.random() < f["fault"] else 0
+  fault_left = 1 if r.random() < max(f["fault"], 0.45) else 0
   close = [j for j in range(n) if pool[j]["fam"] == "close_issuer_keys"]
   if close and r.random() < 0.6 and budget > 12:
     # first one of the two issuers alone, later both together: the verdict of
@@ -926,15 +926,34 @@ def gen_ecdsa(r, tier, f, focus):
       ops.append(together_pending)
       together_pending = None
       continue
-    if fault_left and u < 0.12:
+    if fault_left and u < 0.25:
       fault_left = 0
       # allocation failure at an arbitrary function entry during a cheap
       # nonce check; heal; the same check again
-      nm = r.choice(["CheckNonceMSB", "CheckNonceCommonPrefix",
-                     "CheckCr50U2f", "CheckNonceGeneralized"])
+      biased = [g["idx"] for g in groups.values()
+                if pool[g["idx"][0]]["fam"].startswith(("bias:", "u2f"))]
+      if biased and r.random() < 0.8:
+        # a group whose verdict is positive, plus a neighbour
+        grp = r.choice(biased)
+        fam = pool[grp[0]]["fam"]
+        nm = {"bias:msb": "CheckNonceMSB", "bias:prefix":
+              "CheckNonceCommonPrefix", "bias:postfix":
+              "CheckNonceCommonPostfix"}.get(fam, "CheckCr50U2f")
+        if r.random() < 0.3:
+          nm = "CheckNonceGeneralized" if fam.startswith("bias") else nm
+        batch = list(grp) + [j for j in range(n) if pool[j]["healthy"]][:1]
+      else:
+        nm = r.choice(["CheckNonceMSB", "CheckNonceCommonPrefix",
+                       "CheckCr50U2f", "CheckNonceGeneralized"])
+        batch = _sig_batch(r, pool, groups, whole_only=True)
       spec = {"name": nm, "how": "registry", "via": "all"}
-      batch = _sig_batch(r, pool, groups, whole_only=True)
-      ops.append(G.call_fail_op(r, "ecdsa"))
+      cf = G.call_fail_op(r, "ecdsa")
+      if r.random() < 0.5:
+        # count only entries of the curve arithmetic: lands in the point
+        # multiplications that compare guesses with issuer keys
+        cf["modules"] = ["paranoid_crypto.lib.ec_util"]
+        cf["k"] = int(2 ** (r.random() * 13))
+      ops.append(cf)
       ops.append({"op": "check", "check": spec, "batch": batch, "oracle": []})
       ops.append({"op": "heal"})
       ops.append({"op": "check", "check": spec, "batch": batch,
